@@ -3,7 +3,7 @@
    JSON) and parsing it gives the geometry back; a token sequence with one token removed is never accepted as the same
    geometry. *)
 EXTENDS TextCodecs
-CONSTANT MaxM
+CONSTANTS MaxM, Empties
 VARIABLE g
 Num(id) == [k |-> "num", s |-> "", id |-> id]
 Str(s) == [k |-> "str", s |-> s, id |-> 0]
@@ -22,13 +22,13 @@ WTok(v, d) == IF d = 0 THEN <<Num(v[1]), Num(v[2])>>
 WKw(t) == CASE t = "Point" -> "POINT" [] t = "LineString" -> "LINESTRING" [] t = "Polygon" -> "POLYGON"
             [] t = "MultiLineString" -> "MULTILINESTRING" [] t = "MultiPolygon" -> "MULTIPOLYGON"
 RenderW(x) == <<Kw(WKw(x.t))>> \o WTok(IF x.t = "Point" THEN <<x.m>> ELSE x.m, WDepth(x.t))
-Init == g \in Supported(MaxM)
+Init == g \in Supported(MaxM) \cup (IF Empties THEN WithEmpties(MaxM) ELSE {})
 Spec == Init /\ [][UNCHANGED g]_g
 RemoveTok(ts, i) == SubSeq(ts, 1, i - 1) \o SubSeq(ts, i + 1, Len(ts))
 JsonOK == /\ ParseGeoJSON(RenderJ(g, TRUE)).ok /\ ParseGeoJSON(RenderJ(g, TRUE)).v = g
           /\ ParseGeoJSON(RenderJ(g, FALSE)).ok /\ ParseGeoJSON(RenderJ(g, FALSE)).v = g
           /\ \A i \in 1..Len(RenderJ(g, TRUE)) : LET r == ParseGeoJSON(RemoveTok(RenderJ(g, TRUE), i)) IN ~r.ok \/ r.v # g
-WktOK == g.t = "MultiPoint" \/
+WktOK == g.t = "MultiPoint" \/ g \in WithEmpties(MaxM) \/
          (/\ ParseWKT(RenderW(g)).ok /\ ParseWKT(RenderW(g)).v = g
           /\ \A i \in 1..Len(RenderW(g)) : LET r == ParseWKT(RemoveTok(RenderW(g), i)) IN ~r.ok \/ r.v # g)
 =============================================================================
